@@ -7,6 +7,12 @@ COMMON_NOTE = ("Trusted: Coq 8.16.1 kernel (vm_compute, no native_compute); no a
                "extraction via ExtrOcamlBasic only + coq/Extract/driver.ml, cross-checked by vm_compute on a sample every run; "
                "harness/translate.py (T1) and the per-property runner harness/cNN.py (T2 canonicalisation). ")
 CLAIMED = {
+ "C01": dict(
+   text="Coq theorem over ALL well-formed record descriptions (any nesting of groups, OCCURS n on groups and elementary items, REDEFINES of elementary or group items at any position among the children of a non-repeated group, any widths), ALL records over any element type, ALL navigation paths: the location reached by name/index navigation through the schema build_json_schema emits and LocationMaker.walk lays out starts exactly where the COBOL rules put the item, has exactly its length, raw() is that slice of the record, the record length is the end of the last item, and an index at or beyond the count is refused. "
+        "Proved by mutual induction over the tree with an anchors-extension invariant; includes the flattening lemma for the REDEFINES side effect on the parent's ordered properties. Correspondence compares the EMITTED SCHEMA itself and every path of random trees (EBCDIC and text) with the model and the spec.",
+   note="OCCURS DEPENDING ON is excluded from this theorem (C06) but included in the correspondence run. Element widths are inputs (C04); the loaded Schema mirrors the JSON document (C15). Known findings, excluded by the wf predicate: K-redef-in-occurs (KeyError), K-occurs-elem-in-union, K-index-odo.",
+   technique="Coq proof by mutual induction over record trees (refinement of LocationMaker.walk / NDNav to the COBOL layout specification) + sampled differential correspondence incl. emitted-schema equality",
+   design="5/C01"),
  "C14": dict(
    text="PARTIAL. Coq theorems over ALL registration sequences (lookup returns the class of the last registration mentioning the suffix; an unknown suffix is NotImplementedError with an empty constructor trace) and over ALL event traces of a with-block (any reads, any raise point, any exception, explicit closes): after __exit__ the handle set for the workbook's path is empty, a caller-supplied file object is closed, close never raises and is idempotent - for every class outside the Numbers finding, which is proved to leak until a garbage collection. "
         "What the OS and the third-party readers do with descriptors enters through a per-class table in the model, checked by an exhaustive grid (8 classes x every raise point x path/file object) counting /proc/self/fd entries, not proved.",
